@@ -134,6 +134,33 @@ Theorem C06_install_converges_at_every_crash_point_partial :
 Proof. exact install_converges_at_every_crash_point. Qed.
 Print Assumptions C06_install_converges_at_every_crash_point_partial.
 
+(* the installation goes through: from a node whose loops are idle, for every Ready with a snapshot that the raft
+   library may hand out in that state (ready_ok: the snapshot is ahead of the local log, alone in its Ready), the
+   sub-steps are enabled one after the other (checkpoint found on the local disk or fetched, snap file, WAL record,
+   hard state, engine replaced by the checkpoint, raft storage updated) and the node ends serving the state at the
+   snapshot's index *)
+Theorem C06_install_completes : forall c s r,
+  Inv c s -> rc s = RcRunning -> rdp s = RdIdle -> app s = ApIdle -> queue s = [] -> fs_clash s (r_snap r) = false ->
+  engine s <> None -> ready_ok s r = true -> 0 < r_snap r ->
+  exists evs s', run c s evs = Ok s' /\ sched_ok c s evs
+    /\ applied s' = r_snap r /\ engine s' = Some (range 0 (r_snap r)) /\ rs_last s' = r_snap r
+    /\ rc s' = RcRunning /\ rdp s' = RdIdle /\ app s' = ApIdle /\ queue s' = [].
+Proof. exact install_completes. Qed.
+Print Assumptions C06_install_completes.
+
+(* CONVERGENCE. A replica killed anywhere, also anywhere inside the installation of a snapshot (Inv holds of every
+   reachable state, C06_invariant_reachable; rc s = RcStart is the state a death leaves), restarts without manual
+   repair, and from the restarted node the installation of every snapshot its leader may send goes through and ends
+   with the replica serving the leader's state at the snapshot's index; the invariant holds again, so the same is true
+   after any further death. (That the leader does send a snapshot or the missing entries is raft's part: C01-C04.) *)
+Theorem C06_follower_converges : forall c s, fixed c -> Inv c s -> rc s = RcStart ->
+  exists evs1 s1, run c s evs1 = Ok s1 /\ running s1 = true /\ Inv c s1 /\
+    forall r, ready_ok s1 r = true -> 0 < r_snap r ->
+    exists evs2 s2, run c s1 evs2 = Ok s2 /\ applied s2 = r_snap r /\ engine s2 = Some (range 0 (r_snap r))
+                    /\ rs_last s2 = r_snap r /\ running s2 = true /\ Inv c s2.
+Proof. exact follower_converges. Qed.
+Print Assumptions C06_follower_converges.
+
 (* recovering twice in a row: a node that died (anywhere: also inside a restart or an installation) is restarted,
    the purge loops run (their first pass is at the start of the node; any number of their steps, under the schedule
    hypothesis), it dies again before it has written anything and is restarted again: the second restart serves what the
@@ -234,8 +261,8 @@ Proof. split; [exact ack_before_save_rejected_now | split; [exact orphans_reject
 (* OPEN FINDING (known_findings.d/recover.jsonl): a Ready with an incoming snapshot S and entries above S, saved in one
    wal.Save; death between the entry records and the hard state record. The record of S is not valid, the restart
    reads from the older snapshot and meets the gap: index out of range, the node does not start (with the hard state,
-   or without the entries, it does). The path model does not follow such Readys (the acceptor answers R_ENV: outside,
-   not accepted), so the theorems above do not speak about them *)
+   or without the entries, it does). The path model does not follow such Readys (the acceptor answers R_ENV: a Ready it assumes
+   raft does not produce; not accepted), so the theorems above do not speak about them *)
 Theorem C06_snapshot_and_entries_refuted :
   recover (wal_snapshot_and_entries false) [9] [(9, Some (range 0 9))] = Err E_OUT_OF_RANGE
   /\ recover_isolated (wal_snapshot_and_entries false) [9] [(9, Some (range 0 9))] = Err E_OUT_OF_RANGE
